@@ -361,6 +361,20 @@ def family(tier, seed):
                 continue
             E.append(entry("le_bits_lower_than", S_bits_cmp(n, bound), bits, {"n": n, "bound": bound}, alt=[[1] * n, [0] * n]))
             E.append(entry("le_bits_geq_than", S_bits_cmp(n, bound, geq=True), bits, {"n": n, "bound": bound}, alt=[[1] * n, [0] * n]))
+    # ---- chains through NativeGadget's bound cache (record a bound, then an operation that skips constraints because of it) ----
+    for bound in [1, 200, 255, 256, 257]:
+        E.append(entry("cache_byte_lt", lambda e, I, O, b=bound: AND(lt(I[0], 256), lt(I[0], b)), [min(bound, 256) - 1], {"bound": bound}, alt=[[0]]))
+    for bound in [128, 255, 256]:
+        E.append(entry("cache_byte_lower_than_fixed", lambda e, I, O, b=bound: AND(lt(I[0], 256), eq(O[0], b2i(lt(I[0], b)))), [bound - 1], {"bound": bound}, alt=[[0], [255], [min(bound, 255)]]))
+    for bound in [1, 2, 3]:
+        E.append(entry("cache_bit_lt", lambda e, I, O, b=bound: AND(isbit(I[0]), lt(I[0], b)), [0], {"bound": bound}, alt=[[min(bound, 2) - 1]]))
+    for bound in [200, 255, 256, 257, 300, 1 << 20]:
+        E.append(entry("cache_lt_then_byte", lambda e, I, O, b=bound: AND(lt(I[0], b), lt(I[0], 256), eq(O[0], I[0])), [min(bound, 256) - 1], {"bound": bound}, alt=[[0]]))
+    for bound in [1, 2, 3, 256]:
+        E.append(entry("cache_lt_then_bit", lambda e, I, O, b=bound: AND(lt(I[0], b), isbit(I[0]), eq(O[0], I[0])), [min(bound, 2) - 1], {"bound": bound}, alt=[[0]]))
+    E.append(entry("cache_eq_then_byte", lambda e, I, O: AND(eq(I[0], I[1]), lt(I[1], 256), eq(O[0], I[0])), [255, 255], alt=[[0, 0], [77, 77]]))
+    for b1, b2 in [(300, 256), (256, 300), (255, 255), (1000, 999), (999, 1000)]:
+        E.append(entry("cache_lt_lt", lambda e, I, O, b=min(b1, b2): lt(I[0], b), [min(b1, b2) - 1], {"bound": b1, "bound2": b2}, alt=[[0]]))
     # ---- Range checks / comparisons ----
     for bound in ([1, 2, 255, 256, 257, 1000, (1 << 64) + 5] if tier == "quick" else [1, 2, 3, 255, 256, 257, 1000, 65535, 65536, (1 << 64) + 5, (1 << 128) - 1, 1 << 200]):
         E.append(entry("assert_lower_than_fixed", lambda e, I, O, b=bound: lt(I[0], b), [bound - 1], {"bound": bound}, alt=[[0], [bound // 2]]))
